@@ -453,6 +453,10 @@ class BinnedTrees(Iterable[AngularTree]):
             new._patch = patch
             new.binning = binning
 
+            # the binning file marks the cached trees as valid for this binning,
+            # invalidate it before touching the trees
+            new.binning_file.unlink(missing_ok=True)
+
             with new.trees_file.open(mode="wb") as f:
                 trees = build_trees(patch, binning, leafsize=leafsize)
                 pickle.dump(trees, f)
@@ -464,10 +468,13 @@ class BinnedTrees(Iterable[AngularTree]):
                 edges = binning.edges
                 closed_left = binning.closed == Closed.left
 
-            with new.binning_file.open(mode="wb") as f:
+            # write atomically, a partially written marker could match another binning
+            temp_file = new.binning_file.with_suffix(".tmp")
+            with temp_file.open(mode="wb") as f:
                 byte = int(closed_left).to_bytes(1, byteorder="big")
                 f.write(byte)
                 edges.tofile(f)
+            temp_file.replace(new.binning_file)
 
         return new
 
